@@ -1,2 +1,64 @@
-(* C08 -- placeholder *)
-Theorem C08_placeholder : True. Proof. exact I. Qed.
+(* C08 -- the closing handshake completes correctly in both directions.  Statements only. *)
+From Coq Require Import List NArith Bool.
+From Coq.Strings Require Import Byte.
+From RecordUpdate Require Import RecordSet.
+From Model Require Import Bytes Frame Conn.
+From Proofs Require Import ApiFacts CloseFacts.
+Import ListNotations RecordSetNotations.
+Open Scope N_scope.
+
+(* in EVERY single-threaded history -- any configuration, any application strategy (sends and closes at any event,
+   also before Ready), any environment script (data, server Close, faults) -- the trace satisfies: every successful
+   write has no Close frame before it.  Hence at most one Close frame per connection and nothing after it. *)
+Theorem C08_single_close_invariant : forall cf app keys wf zt ct cn steps,
+  cinv (run cf app (init keys wf zt ct) cn steps).
+Proof. intros. apply run_keeps. apply cinv_init. Qed.
+Print Assumptions C08_single_close_invariant.
+
+Theorem C08_at_most_one_close : forall cf app keys wf zt ct cn steps,
+  (close_count (k_tr (run cf app (init keys wf zt ct) cn steps)) <= 1)%nat.
+Proof. intros. apply tr_ok_one_close. apply (C08_single_close_invariant cf app keys wf zt ct cn steps). Qed.
+Print Assumptions C08_at_most_one_close.
+
+Theorem C08_nothing_written_after_close : forall cf app keys wf zt ct cn steps a x b,
+  k_tr (run cf app (init keys wf zt ct) cn steps) = a ++ x :: b -> is_write x = true -> close_count b = 0%nat.
+Proof. intros cf app keys wf zt ct cn steps. apply tr_ok_nothing_after_close. apply (C08_single_close_invariant cf app keys wf zt ct cn steps). Qed.
+Print Assumptions C08_nothing_written_after_close.
+
+(* client side: close(code, reason) writes exactly one Close frame carrying that code and reason *)
+Theorem C08_close_writes_the_close_frame : forall c code reason,
+  k_sock c = true -> k_closed c = false -> k_closing c = false -> blen (close_payload code reason) <= 125 ->
+  (match k_wfaults c with [] => True | w :: _ => w = WOk end) ->
+  let c' := fst (ws_close c code reason) in
+  k_tr c' = TWrite (build OP_CLOSE false (next_key c) (close_payload code reason)) :: k_tr c /\
+  k_closing c' = true /\ snd (ws_close c code reason) = None.
+Proof. exact close_writes_the_close_frame. Qed.
+Print Assumptions C08_close_writes_the_close_frame.
+
+(* ... after which every send raises a WebSocketError and writes nothing *)
+Theorem C08_sends_refused_after_close : forall c op rsv p, k_closing c = true \/ k_closed c = true ->
+  exists x, snd (send_frame c op rsv p) = Some x /\ is_websocket_error x = true /\
+            k_tr (fst (send_frame c op rsv p)) = k_tr c.
+Proof. exact send_refused_after_close. Qed.
+Print Assumptions C08_sends_refused_after_close.
+
+(* the server's Close: completes the handshake when the client is closing (Closed, then closed := true, and a closed
+   websocket ends the loop with a graceful Disconnected); otherwise Closing is yielded first -- sends are still accepted
+   during that event -- and then the echo with the same code and reason *)
+Theorem C08_server_close_completes : forall cf app c code reason,
+  k_closed c = false -> k_closing c = true ->
+  (match code with Some n => invalid_close_code n | None => false end) = false ->
+  on_message cf app c (MClose code reason) =
+    (let '(c1, st) := feed_yield cf app c (EvClosed code reason) (fun c1 => (c1 <| k_closed := true |> <| k_closing := false |>, SOk)) in
+     (c1, st, FContinue)).
+Proof. exact server_close_completes_handshake. Qed.
+Theorem C08_server_close_echoed : forall cf app c code reason,
+  k_closed c = false -> k_closing c = false ->
+  (match code with Some n => invalid_close_code n | None => false end) = false ->
+  on_message cf app c (MClose code reason) =
+    (let '(c1, st) := feed_yield cf app c (EvClosing code reason)
+                        (fun c1 => ((fst (ws_close c1 code reason)) <| k_closing := true |>, SOk)) in
+     (c1, st, FContinue)).
+Proof. exact server_close_is_echoed. Qed.
+Theorem C08_closed_ends_gracefully : forall cf app steps c, k_closed c = true -> loop cf app steps c = finish app c SOk.
+Proof. exact closed_ends_gracefully. Qed.
